@@ -192,6 +192,15 @@ class Proj:
         return {"files": dict(self.files), "commands": list(self.commands)}
 
 
+class SetupFailed(Exception):
+    """a step that only prepares a case - running a valid project whose scripts all succeed - did not end with exit status
+    0: that is itself what C04 forbids (a one-shot run of a valid project terminates with status 0)"""
+
+    def __init__(self, res, what):
+        Exception.__init__(self, what)
+        self.res, self.what = res, what
+
+
 class Case:
     """one bounded case: fn(proj) returns None when the property held, or a dict(expected=, observed=) when not"""
 
@@ -208,6 +217,10 @@ class Case:
                 rec.update(bad)
                 rec["project"] = pr.describe()
             return rec
+        except SetupFailed as e:
+            return {"family": self.family, "case": self.name, "what": self.what, "ok": False, "secs": round(time.time() - t0, 2), "property": ["C04"],
+                    "expected": "a valid project whose scripts all succeed runs to completion with exit status 0 (%s)" % e.what,
+                    "observed": "exit %s%s" % (e.res.rc, ", killed after the time-out: it never terminated" if e.res.timed_out else ""), "zinoma": e.res.brief(), "project": pr.describe()}
         except Exception as e:  # a harness error is not a violation
             return {"family": self.family, "case": self.name, "what": self.what, "ok": True, "harness_error": repr(e)[:400], "secs": round(time.time() - t0, 2)}
         finally:
